@@ -389,6 +389,13 @@ def rule_j(ctx):
             why or 'isinstance(element, Exception) -> raise; otherwise a generator yielding the element once')
 
 
+def rule_k(ctx):
+    """Each transport decodes with its own parser and buffer (a parser shared between connections would splice their
+    byte streams)."""
+    from . import plumbing
+    plumbing.rule_shared_defaults(ctx, 'C04.i', ['rsocket.transports', 'rsocket.frame_parser'], 'transports and parser')
+
+
 def rule_h(ctx):
     """A correctly delimited but undecodable frame produces no frame or one marker: what the decoder hands back on a
     parse failure (shared C12.a; c12 imports this module, hence the late import)."""
@@ -397,4 +404,4 @@ def rule_h(ctx):
 
 
 RULES = [('C04.a', rule_a), ('C04.b', rule_b), ('C04.c', rule_c), ('C04.d', rule_d), ('C04.e', rule_e),
-         ('C04.f', rule_f), ('C12.e', rule_g), ('C12.a', rule_h), ('C04.g', rule_i), ('C04.h', rule_j)]
+         ('C04.f', rule_f), ('C12.e', rule_g), ('C12.a', rule_h), ('C04.g', rule_i), ('C04.h', rule_j), ('C04.i', rule_k)]
